@@ -189,6 +189,13 @@ def run(ctx: Ctx):
               ' one-shot API": an accumulator never shares mutable state with'
               ' a state merged into it, so later updates cannot corrupt either'
               ' value (R-C11-1, R-C11-2)', _c11_shared, aggmodel(ctx), min_instances=20)
+  from mlmverif.props import c01
+  ctx.include('R-C07-13', '"calibration ... the one-shot function API returns the same'
+              ' value as the accumulator API": an accumulator fed through merge()'
+              ' pairs every statistic with the same-named statistic of the operand,'
+              ' also through positional helper calls (R-C01-5 name pairing) — a'
+              ' crossed pair (labels <-> predictions) leaves counts and shapes'
+              ' right and every derived rate wrong', c01.r5, aggmodel(ctx), min_instances=10)
 
 
 def _c11_shared(sub, m):
